@@ -101,10 +101,12 @@ class ReviewTap(E1Prop):
             st.get('required_leader_approvals', 0),
             st.get('required_peer_approvals', 0),
             len(st['project_leaders']))
-        if rng.random() < 0.2:
-            st['pr_author_options'] = {'alice': rng.sample(
+        if rng.random() < 0.3:
+            from ..e5_reviews import gen_author_options
+            st['pr_author_options'] = gen_author_options(
+                rng, rng.choice(['alice', 'bob']),
                 ['bypass_author_approval', 'bypass_peer_approval',
-                 'bypass_leader_approval'], 1)}
+                 'bypass_leader_approval'], others=('alice', 'bob', 'carol'))
         return cfg
 
     def begin(self, w, rng):
@@ -291,6 +293,12 @@ class TicketTap(E1Prop):
                                          'Story': 'feature'}]),
             'bypass_prefixes': rng.choice([[], ['documentation']]),
             'disable_version_checks': rng.random() < 0.2})
+        if rng.random() < 0.25:
+            from ..e5_reviews import gen_author_options
+            cfg['settings']['pr_author_options'] = gen_author_options(
+                rng, rng.choice(['alice', 'bob']),
+                ['bypass_jira_check', 'bypass_build_status'],
+                others=('alice', 'bob', 'carol'))
         return cfg
 
     def begin(self, w, rng):
